@@ -61,6 +61,7 @@ func loadGen(repo string, specGlobs []string) (*Gen, error) {
 			g.funcsByKey[k] = fn
 		}
 	}
+	g.bindFuncTypes()
 	g.buildAxioms()
 	return g, nil
 }
@@ -191,6 +192,7 @@ type FuncReport struct {
 	Uncontracted []string `json:"uncontracted_callees_havocked,omitempty"`
 	External     []string `json:"external_callees_havocked,omitempty"`
 	Assumed      []string `json:"assumed_contracts_used,omitempty"`
+	SkippedPartial int    `json:"partial_function_unclaimed_obligations_skipped,omitempty"`
 }
 
 type OblReport struct {
@@ -353,8 +355,25 @@ func (g *Gen) check(prop, tier, outDir string, timeoutMS, seed, par int, verbose
 		keys = append(keys, k)
 	}
 	sort.Strings(keys)
+	for _, tc := range g.lostFuncTypes {
+		if tc.mentions(prop) {
+			res.AnchorLost = append(res.AnchorLost, &OblReport{Name: "type:" + tc.FuncType + "#anchor#type-missing", Kind: "anchor", Expect: "unsat", Verdict: "not-generated",
+				Clause: "function type " + tc.FuncType + " carries a contract for this property but no longer exists"})
+		}
+	}
+	for i, u := range g.unboundFuncType {
+		res.AnchorLost = append(res.AnchorLost, &OblReport{Name: fmt.Sprintf("functype#anchor#unbound#%d", i+1), Kind: "anchor", Expect: "unsat", Verdict: "not-generated", Clause: u})
+	}
 	for _, k := range keys {
 		c := g.spec.Contracts[k]
+		if c.FuncType != "" {
+			n := len(g.funcTypeImpl[k])
+			if n == 0 && g.tpkg.Scope().Lookup(c.FuncType) != nil {
+				res.AnchorLost = append(res.AnchorLost, &OblReport{Name: k + "#anchor#no-implementers", Kind: "anchor", Expect: "unsat", Verdict: "not-generated",
+					Clause: "no function is converted to " + c.FuncType + " any more: the dispatch the type contract was written for is gone"})
+			}
+			continue
+		}
 		f := g.funcsByKey[k]
 		if f == nil || f.Blocks == nil {
 			// the function under contract is gone: its obligations can no longer be generated, so the
@@ -402,6 +421,11 @@ func (g *Gen) check(prop, tier, outDir string, timeoutMS, seed, par int, verbose
 		for _, o := range fv.obls {
 			if !contains(o.Props, prop) || specBroken {
 				continue // a function whose contract no longer resolves yields no checkable obligations
+			}
+			if c.Partial && tier != "thorough" && (o.Kind == "safety" || o.Kind == "lock" || o.Kind == "call-pre" || o.Kind == "alloc-bound") {
+				// not claimed for a partial function (decided where possible in the thorough tier only)
+				fr.SkippedPartial++
+				continue
 			}
 			obls = append(obls, o)
 		}
@@ -451,7 +475,13 @@ func (g *Gen) check(prop, tier, outDir string, timeoutMS, seed, par int, verbose
 			}
 			continue
 		}
-		if o.Kind == "safety" && o.Abstract {
+		partialFn := false
+		if pc := g.spec.Contracts[o.Func]; pc != nil && pc.Partial {
+			partialFn = true
+		}
+		// in a 'partial' function only the stated clauses (ensures, asserts, frame) are claimed: safety,
+		// callee preconditions, lock discipline and automatic loop frames are decided where possible
+		if (o.Kind == "safety" && o.Abstract) || (partialFn && (o.Kind == "call-pre" || o.Kind == "lock" || o.Kind == "safety" || o.Kind == "alloc-bound")) {
 			// abstracted safety: counted only when discharged; otherwise undecided (no alarm)
 			if o.Verdict == "unsat" {
 				res.Obligations++
